@@ -13,15 +13,22 @@ use swimos_form::read::{ReadError, ReadEvent, Recognizer, RecognizerReadable};
 use vcore::*;
 
 // ---- the parse events of a text (used only to classify a failure into the known class) ----
-pub struct Log(pub Vec<String>);
-pub struct LogRec(Vec<String>);
+pub struct Log(pub Vec<ReadEvent<'static>>);
+pub struct LogRec(Vec<ReadEvent<'static>>);
 impl Recognizer for LogRec {
     type Target = Log;
     fn feed_event(&mut self, input: ReadEvent<'_>) -> Option<Result<Log, ReadError>> {
         self.0.push(match input {
-            ReadEvent::StartBody => "SB".into(),
-            ReadEvent::EndRecord => "ER".into(),
-            ow => format!("{:?}", ow),
+            ReadEvent::TextValue(t) => ReadEvent::TextValue(std::borrow::Cow::Owned(t.into_owned())),
+            ReadEvent::StartAttribute(t) => ReadEvent::StartAttribute(std::borrow::Cow::Owned(t.into_owned())),
+            ReadEvent::Extant => ReadEvent::Extant,
+            ReadEvent::Number(n) => ReadEvent::Number(n),
+            ReadEvent::Boolean(b) => ReadEvent::Boolean(b),
+            ReadEvent::Blob(b) => ReadEvent::Blob(b),
+            ReadEvent::EndAttribute => ReadEvent::EndAttribute,
+            ReadEvent::StartBody => ReadEvent::StartBody,
+            ReadEvent::Slot => ReadEvent::Slot,
+            ReadEvent::EndRecord => ReadEvent::EndRecord,
         });
         None
     }
@@ -48,14 +55,17 @@ impl RecognizerReadable for Log {
 }
 
 /// The events of a text with every StartBody / EndRecord removed.
-fn events_without_braces(s: &str) -> Option<Vec<String>> {
-    parse_recognize::<Log>(Span::new(s), false).ok().map(|l| l.0.into_iter().filter(|e| e != "SB" && e != "ER").collect())
+fn events_without_braces(s: &str) -> Option<Vec<ReadEvent<'static>>> {
+    parse_recognize::<Log>(Span::new(s), false)
+        .ok()
+        .map(|l| l.0.into_iter().filter(|e| *e != ReadEvent::StartBody && *e != ReadEvent::EndRecord).collect())
 }
 
 // ---- a small value language spelled by hand, so that every legal way of writing it is reachable ----
 #[derive(Clone, Debug)]
 enum Sv {
     Int(i64),
+    Num(String),
     Str(String),
     Rec(Vec<(String, Option<Sv>)>, Vec<Si>),
 }
@@ -69,6 +79,7 @@ fn gen_sv(rng: &mut Rng, depth: u32) -> Sv {
     let top = if depth == 0 { 2 } else { 4 };
     match rng.below(top) {
         0 => Sv::Int(*rng.pick(&[0, 1, 2, 3, -1, 10])),
+        1 if rng.below(4) == 0 => Sv::Num(rng.pick(&["0.0", "-0.0", "-0", "1.5", "1e1", "10.0", "0x10", "16"]).to_string()),
         1 => Sv::Str(rng.pick(&["a", "b", "x)y", "p,q", "u;v", "m:n", "{", "}", "(", "two words", "q\"r", "@z", "l\nm", ""]).to_string()),
         _ => {
             let nattrs = *rng.pick(&[0usize, 0, 1, 1, 2]);
@@ -131,6 +142,14 @@ fn spell_items(rng: &mut Rng, items: &[Si]) -> String {
 fn spell_sv(rng: &mut Rng, v: &Sv) -> String {
     match v {
         Sv::Int(n) => n.to_string(),
+        Sv::Num(t) => match (t.as_str(), rng.below(3)) {
+            ("0.0", 0) => "-0.0".to_string(),
+            ("-0.0", 0) => "0e0".to_string(),
+            ("-0", 0) => "0".to_string(),
+            ("16", 0) => "0x10".to_string(),
+            ("10.0", 0) => "1e1".to_string(),
+            _ => t.clone(),
+        },
         Sv::Str(t) => spell_str(rng, t),
         Sv::Rec(attrs, items) => {
             let mut out = String::new();
@@ -251,7 +270,7 @@ fn gen_value(rng: &mut Rng, depth: u32) -> Value {
         1 => Value::Int32Value(*rng.pick(&[0, 1, -1, 2, 10, 16, 100, i32::MAX, i32::MIN])),
         2 => Value::Int64Value(*rng.pick(&[0, 1, -1, 16, i64::MAX, i64::MIN, 1 << 40])),
         3 => Value::UInt64Value(*rng.pick(&[0, 1, 16, u64::MAX, 1 << 63])),
-        4 => Value::Float64Value(*rng.pick(&[0.0, 1.0, -1.5, 100.0, 0.5, 1e10, 16.0])),
+        4 => Value::Float64Value(*rng.pick(&[0.0, -0.0, 1.0, -1.5, 100.0, 0.5, 1e10, 16.0, -16.0])),
         5 => Value::BooleanValue(rng.below(2) == 0),
         6 => Value::BigInt(BigInt::from(*rng.pick(&[0i64, -1, 16, i64::MIN])) * BigInt::from(*rng.pick(&[1i64, 1 << 40]))),
         7 => Value::Text(Text::new(&gen_text(rng))),
@@ -412,6 +431,7 @@ fn main() {
         ("%AAEC", "%AAEC"), ("true", "\"true\""), ("-0", "0"), ("{1}", "1"), ("@a 1", "@a {1}"), ("@a(1,2)", "@a({1,2})"), ("\"a\\u0062\"", "ab"),
         ("@attr(1;2)", "@attr(1,2)"), ("@attr(1;2)", "@attr({1,2})"), ("@id(@inner(1;2), 3)", "@id({@inner({1,2}), 3})"), ("@name(3; {a: 1, b: 2})", "@name({3, {a: 1, b: 2}})"),
         ("{1,{2}}", "{{1,2}}"), ("{b,{b}}", "{{b,b}}"), ("@a(1\n2)", "@a(1,2)"), ("@a(\"x)y\",2)", "@a({\"x)y\",2})"), ("{1\n2}", "{1,2}"), ("@a(\"x,y\")", "@a({\"x,y\"})"),
+        ("0.0", "-0.0"), ("{a:0.0}", "{a:-0.0}"), ("-0", "0"), ("0", "-0"), ("-0x0", "0"), ("0e0", "-0.0"), ("@a(-0.0)", "@a(0.0)"), ("1e400", "2e400"), ("-1e400", "1e400"),
         ("{", "{"), ("{", "{ "), ("@", "@"), ("", ""), ("", " "), ("{a:}", "{a:}"), ("{:1}", "{: 1}"),
     ] {
         check(a, b, "corpus", &mut failures);
